@@ -308,6 +308,14 @@ pub fn analyse(log: &[Rec], fams: &[Fam], meta: &Meta) -> Analysis {
                                 s.reset_sent_while_held = true;
                                 cx.fail(Fam::Credit, i, "reset-of-live-flow", format!("ep{e} sent Reset for s{sid} (flow {id:x}) although its application still holds the stream and the peer did not reset it"));
                             }
+                            // "Reset from the peer closes the local slot without answering": while the application still holds the
+                            // stream (so no drop of its own can be the cause - a drop is logged before it is carried out) a Reset that
+                            // follows the delivery of the peer's Reset for this very incarnation can only be an answer to it. Such a
+                            // frame outlives the stream on both ends and hits whatever uses the id next.
+                            if s.held && !s.dropped && s.reset_delivered && !conn_end && !meta.stream_is_bridge {
+                                cnt.add("reset_echoes", 1);
+                                cx.fail(Fam::Abort, i, "reset-echoed", format!("ep{e} sent Reset for s{sid} (flow {id:x}) after the peer's Reset of that stream had been delivered to it and while its application had not dropped the stream: a Reset was answered with a Reset"));
+                            }
                         }
                     }
                     Wm::Bind { id, port, .. } => {
